@@ -40,6 +40,9 @@ func ledgerWorkload(c *fw.Ctx, strata []stratum, total int, mon func(e *exec, st
 		}
 		c.Count("stratum_"+st.name, 1)
 		mon(e, st.name)
+		if e2, ok := rerunVaried(c, e); ok {
+			mon(e2, st.name)
+		}
 		if c.WantSample() && (k%7 == 3) {
 			c.Sample(map[string]any{"case": id, "input": e.input(), "real_outcome": e.out.Summary(), "store_calls": len(e.out.Calls)})
 		}
